@@ -14,8 +14,8 @@ unshare -m bash -c '
   cd /verif
   for seed in '"$SEEDS"'; do
     id=${seed%-*}; n=${seed#*-}
-    patch=/tmp/seed-$id-out/patch$n.diff
-    [ -f /tmp/seed-$id-out/patch$n.rebased.diff ] && patch=/tmp/seed-$id-out/patch$n.rebased.diff
+    patch=/tmp/${SEED_PREFIX:-seed}-$id-out/patch$n.diff
+    [ -f /tmp/${SEED_PREFIX:-seed}-$id-out/patch$n.rebased.diff ] && patch=/tmp/${SEED_PREFIX:-seed}-$id-out/patch$n.rebased.diff
     [ -f "$patch" ] || { echo "$seed: no patch"; continue; }
     (cd /repo && git checkout -q -- . && git apply "$patch") || { echo "$seed: patch does not apply"; continue; }
     line="$seed:"
